@@ -820,8 +820,11 @@ impl<'a> Parser<'a> {
         };
 
         while let Some(digit) = self.inc().and_then(|ch| ch.to_digit(10)) {
-            value *= 10;
-            value += digit;
+            // Reject numbers that do not fit instead of silently wrapping around
+            value = match value.checked_mul(10).and_then(|v| v.checked_add(digit)) {
+                Some(v) => v,
+                None => return Err(self.parse_error("Number is too large in duration".to_string())),
+            };
         }
 
         Ok(value)
